@@ -963,13 +963,11 @@ namespace riddle
             tk = next();
 
             size_t c_pos = pos;
-            do
-            {
-                if (!match(ID_ID))
-                    error("expected identifier..");
-            } while (match(DOT_ID));
+            bool is_cast = match(ID_ID); // we are just looking ahead: anything but a qualified name followed by ')' is a parenthesized expression..
+            while (is_cast && match(DOT_ID))
+                is_cast = match(ID_ID);
 
-            if (match(RPAREN_ID)) // a cast..
+            if (is_cast && match(RPAREN_ID)) // a cast..
             {
                 backtrack(c_pos);
                 std::vector<id_token> ids;
